@@ -1252,8 +1252,8 @@ class MaxResult(tuple):
 def norm(t, p=2, dim=-1, keepdim=False):
     ctx = cur()
     ctx.used_ops.add("norm")
-    if p != 2:
-        raise Unsupported("norm p != 2")
+    if p not in (1, 2):
+        raise Unsupported("norm p not in {1,2}")
     d = norm_dim(dim, t.rank)
     n = t.shape[d]
     if not isinstance(n, int):
@@ -1268,6 +1268,11 @@ def norm(t, p=2, dim=-1, keepdim=False):
             J = list(outer)
             J.insert(d, k)
             vals.append(zreal(s(tuple(J))))
+        if p == 1:
+            r = zreal(0)
+            for v in vals:
+                r = r + z3.If(v >= 0, v, -v)
+            return r
         if n == 2:
             return NORM2(vals[0], vals[1])
         if n == 1:
